@@ -573,11 +573,14 @@ def kinds_not_confused(ctx: Ctx, rule: str, modules: Iterable[str], what: str, c
     rels = {ctx.prog.module(m).relpath: m for m in modules if m in ctx.prog.modules}
     hits = []
     for e in getattr(ctx.types, "errors", []):
-        m_ = re.match(r"(.*?):(\d+): error: (.*)\[arg-type\]\s*$", e)
+        m_ = re.match(r"(.*?):(\d+): error: (.*)\[(arg-type|index)\]\s*$", e)
         if not (m_ and m_.group(1).replace("\\", "/") in rels):
             continue
         msg_ = m_.group(3)
         t_ = re.search(r'has incompatible type "([^"]*)"; expected "([^"]*)"', msg_)
+        if t_ is None:
+            # a table of one kind of key indexed by another kind: `Invalid index type "ProtocolRef" for "Dict[SupportedType, ...]"; expected type "SupportedType"`
+            t_ = re.search(r'Invalid index type "([^"]*)" for "[^"]*"; expected type "([^"]*)"', msg_)
         if t_ is None:
             continue
         got_k = {k for k in kinds if re.search(r"\b" + k + r"\b", t_.group(1))}
@@ -630,3 +633,188 @@ def ctx_global_name(ctx: Ctx) -> str:
     if "_eval_ctx" in m.assigns:
         return "_eval_ctx"
     raise AnchorError("role evaluation-context-global not found in dds._api")
+
+
+def forwarding_complete(ctx: Ctx, rule: str, why: str) -> int:
+    """A package function that takes `*args` and `**kwargs` and hands one of them to a call hands over the other one too (in the same call):
+    the public entry points, the decorators' wrappers and the internal API forward the user's arguments whole - a keyword argument that is
+    dropped on the way is neither part of the key nor given to the user function, which then runs (and is keyed) with its default."""
+    rep = ctx.report
+    prog = ctx.prog
+    n = 0
+    for f in prog.funcs.values():
+        if not f.module.name.startswith("dds") or f.module.name.startswith("dds_tests"):
+            continue
+        a = f.node.args
+        if a.vararg is None or a.kwarg is None:
+            continue
+        va, kw = a.vararg.arg, a.kwarg.arg
+        for c in f.own_nodes():
+            if not isinstance(c, ast.Call):
+                continue
+            has_va = any((isinstance(x, ast.Starred) and isinstance(x.value, ast.Name) and x.value.id == va) or (isinstance(x, ast.Name) and x.id == va) for x in c.args) \
+                or any(isinstance(k.value, ast.Name) and k.value.id == va and k.arg is not None for k in c.keywords)
+            has_kw = any(k.arg is None and isinstance(k.value, ast.Name) and k.value.id == kw for k in c.keywords) or any(isinstance(x, ast.Name) and x.id == kw for x in c.args) \
+                or any(isinstance(k.value, ast.Name) and k.value.id == kw and k.arg is not None for k in c.keywords)
+            if not (has_va or has_kw):
+                continue
+            d = prog.dotted(f, c.func) or unparse(c.func)
+            if d in ("len", "bool", "list", "tuple", "dict", "sorted", "repr", "str", "isinstance") or d.split(".")[-1] in ("debug", "info", "warning", "error", "format"):
+                continue
+            n += 1
+            desc = f"{f.name}: `{unparse(c, 60)}` hands over both `*{va}` and `**{kw}`"
+            if has_va and has_kw:
+                rep.ok(rule, f.qname, desc, f.loc(c))
+            else:
+                missing = f"**{kw}" if has_va else f"*{va}"
+                rep.bad(rule, f.qname, desc, f.loc(c), [f"{f.loc(c)}: `{unparse(c, 80)}` forwards {'*' + va if has_va else '**' + kw} but not {missing}", why],
+                        stmt_key(c), what=f"{f.name} drops {missing} when it forwards the call")
+    return n
+
+
+def never_none_globals(ctx: Ctx, f: Func) -> Dict[str, bool]:
+    """atoms `<name> is None` that are false for this function: <name> is a module-level variable of the package bound once, to the result of a
+    constructor call (`_global_context = GlobalContext()`), and never assigned inside a function"""
+    prog = ctx.prog
+    world: Dict[str, bool] = {}
+    for n in f.own_nodes():
+        if isinstance(n, ast.Compare) and len(n.ops) == 1 and isinstance(n.ops[0], (ast.Is, ast.IsNot)) and isinstance(n.left, ast.Name) \
+                and isinstance(n.comparators[0], ast.Constant) and n.comparators[0].value is None and not prog.is_local(f, n.left.id):
+            d = prog.resolve_name(f, n.left.id)
+            if d is None:
+                continue
+            mod, _, nm = d.rpartition(".")
+            m = prog.modules.get(mod)
+            if m is None or nm not in m.assigns or len(m.assigns[nm]) != 1:
+                continue
+            v = getattr(m.assigns[nm][0], "value", None)
+            if not (isinstance(v, ast.Call) and isinstance(v.func, ast.Name) and v.func.id[:1].isupper()):
+                continue
+            rebound = any(isinstance(g_, ast.Global) and nm in g_.names for h in prog.funcs.values() if h.module is m for g_ in h.own_nodes())
+            if not rebound:
+                world[f"{n.left.id} is None"] = False
+    return world
+
+
+def refusal_live(ctx: Ctx, rule: str, why: str) -> int:
+    """The resolution that refuses the callables of non-accepted modules (`ObjectRetrieval.retrieve_object_global`, called by the entry functions of the
+    analysis for every path of the call tree) is live in each of them: there is a path from the entry to the call whose branch outcomes can hold
+    when the module-level objects that are never None are not None.  A guard written `if <global> is None:` makes the block dead code."""
+    from ..propdom import excluding_branches
+    rep = ctx.report
+    prog = ctx.prog
+    n = 0
+    for f in prog.funcs.values():
+        if f.module.name != "dds.introspect":
+            continue
+        calls = [c for c in f.own_nodes() if isinstance(c, ast.Call) and isinstance(c.func, ast.Attribute) and c.func.attr == "retrieve_object_global"]
+        if not calls:
+            continue
+        cfg = cfg_of(f)
+        world = never_none_globals(ctx, f)
+        avoid = excluding_branches(prog, f, cfg, world) if world else []
+        for c in calls:
+            n += 1
+            desc = f"{f.name}: the resolution of the paths of the call tree (which refuses callables of modules that are not accepted) can run"
+            tg = cfg.nodes_of(c)
+            p = cfg.find_path([cfg.entry], tg, avoid=avoid) if tg else None
+            if p is not None:
+                rep.ok(rule, f.qname, desc, f.loc(c))
+            else:
+                dead = [b for b in avoid if b.ast is not None]
+                rep.bad(rule, f.qname, desc, f.loc(c), [f"{f.loc(c)}: `{unparse(c, 60)}` is reached only through " + ", ".join(f"[{b.label}] {unparse(b.ast, 40)}" for b in dead[:3])
+                        + f", which cannot hold: {sorted(world)} are never true (module-level objects bound once)", why], stmt_key(c),
+                        what=f"the refusal of callables of non-accepted modules is dead code in {f.name}")
+    return n
+
+
+def display_calls_are_dry(ctx: Ctx, rule: str) -> int:
+    """The package's own calls of the evaluation API that throw the result away (they are made for the exported graph: `displayGraph`) are restricted to
+    the analysis stage by a literal stage list: they run no user code, store no blob and commit no path."""
+    rep = ctx.report
+    prog = ctx.prog
+    n = 0
+    for f in prog.funcs.values():
+        if not f.module.name.startswith("dds") or f.module.name.startswith("dds_tests") or f.module.name in ("dds", "dds._api"):
+            continue
+        for st in f.own_nodes():
+            if not (isinstance(st, ast.Expr) and isinstance(st.value, ast.Call)):
+                continue
+            c = st.value
+            d = prog.dotted(f, c.func) or ""
+            if d not in ("dds._api.eval", "dds.eval", "dds._api._eval"):
+                continue
+            n += 1
+            kws = {k.arg: k.value for k in c.keywords}
+            stg = kws.get("dds_stages")
+            desc = f"{f.name}: the evaluation made for its graph only is restricted to the analysis stage"
+            names = None
+            if isinstance(stg, (ast.List, ast.Tuple)):
+                names = []
+                for e in stg.elts:
+                    if isinstance(e, ast.Constant) and isinstance(e.value, str):
+                        names.append(e.value.lower())
+                    elif isinstance(e, ast.Attribute):
+                        names.append(e.attr.lower())
+                    else:
+                        names = None
+                        break
+            if names is not None and names and all(x == "analysis" for x in names):
+                rep.ok(rule, f.qname, desc, f.loc(c))
+            else:
+                rep.bad(rule, f.qname, desc, f.loc(c), [f"{f.loc(c)}: dds_stages is `{unparse(stg, 40) if stg is not None else 'not given'}` (None / absent means every stage)",
+                        "displaying the graph of a pipeline runs the user functions, writes their blobs and commits every path, while the caller only asked for a picture"],
+                        stmt_key(c), what=f"{f.name} evaluates for real where it is meant to analyse only")
+    return n
+
+
+def collected_is_used(ctx: Ctx, rule: str, modules: Iterable[str], why: str) -> int:
+    """A local collection that a function of the analysis fills (`xs = []` ... `xs.append(..)` in a loop) is read afterwards - returned, passed on,
+    iterated: the interactions found in the methods of a class, the sub-calls of a function, the loaded paths are collected to become part of
+    the record that the function returns.  A collection that is only ever appended to has been dropped from that record."""
+    rep = ctx.report
+    prog = ctx.prog
+    n = 0
+    MUT = ("append", "extend", "add", "update", "insert", "setdefault")
+    for f in prog.funcs.values():
+        if f.module.name not in modules:
+            continue
+        # functions that build the record they return (`return FunctionInteractions(...)` / `...IndirectInteractions(...)`)
+        if not any(isinstance(r, ast.Return) and isinstance(r.value, ast.Call) and unparse(r.value.func).split(".")[-1].endswith("Interactions") for r in f.own_nodes()):
+            continue
+        inits = {}
+        for st in f.own_nodes():
+            if isinstance(st, (ast.Assign, ast.AnnAssign)) and st.value is not None:
+                tg = st.targets[0] if isinstance(st, ast.Assign) and len(st.targets) == 1 else (st.target if isinstance(st, ast.AnnAssign) else None)
+                v = st.value
+                empty = (isinstance(v, (ast.List, ast.Dict, ast.Set)) and not (v.keys if isinstance(v, ast.Dict) else v.elts)) or (
+                    isinstance(v, ast.Call) and not v.args and not v.keywords and unparse(v.func).split(".")[-1] in ("list", "dict", "set", "OrderedDict"))
+                if isinstance(tg, ast.Name) and empty:
+                    inits[tg.id] = st
+        for name, st in inits.items():
+            fills = reads = 0
+            for y in f.own_nodes():
+                if isinstance(y, ast.Name) and y.id == name and isinstance(y.ctx, ast.Load):
+                    par = f.module.parent.get(y)
+                    gp = f.module.parent.get(par) if par is not None else None
+                    if isinstance(par, ast.Attribute) and par.attr in MUT and isinstance(gp, ast.Call) and gp.func is par:
+                        fills += 1
+                    elif isinstance(par, ast.Subscript) and isinstance(par.ctx, ast.Store) and par.value is y:
+                        fills += 1
+                    else:
+                        reads += 1
+            # also read when a nested function / lambda of f reads it
+            for g in f.nested.values():
+                for y in g.own_nodes():
+                    if isinstance(y, ast.Name) and y.id == name and isinstance(y.ctx, ast.Load):
+                        reads += 1
+            if not fills:
+                continue
+            n += 1
+            desc = f"{f.name}: the collection `{name}` that the function fills is used afterwards"
+            if reads:
+                rep.ok(rule, f.qname, desc, f.loc(st))
+            else:
+                rep.bad(rule, f.qname, desc, f.loc(st), [f"{f.loc(st)}: `{name}` is filled ({fills} site(s)) and never read", why], f"collected-unused:{name}",
+                        what=f"{f.name} collects `{name}` and drops it")
+    return n
